@@ -171,6 +171,7 @@ impl Property for C03 {
             SubBatch { name: "swap", quick: 20_000, thorough: 120_000 },
             SubBatch { name: "empty", quick: 1_000, thorough: 2_000 },
             SubBatch { name: "wide", quick: 600, thorough: 20_000 },
+            SubBatch { name: "dense", quick: 12_000, thorough: 300_000 },
             SubBatch { name: "child", quick: 1_500, thorough: 8_000 },
             SubBatch { name: "faults", quick: 3_000, thorough: 16_000 },
         ]
@@ -180,7 +181,12 @@ impl Property for C03 {
     }
 
     fn generate(&self, d: &mut Decider, _tier: Tier, sub: &str) -> Sc {
-        let (n, ng) = if sub == "wide" {
+        let (n, ng) = if sub == "dense" {
+            // longer circuits on 4..6 qubits: the local shapes the rewrite rules and the frontier
+            // Gaussian elimination only meet after many gates (pivots with shared neighbours, row
+            // swaps, gadgets of higher degree)
+            (4 + d.choose("dn", 3), 30 + d.choose("dng", 51))
+        } else if sub == "wide" {
             // more than nine qubits (two-digit indices), few gates; judged on random input states
             (10 + d.choose("wn", 3), d.choose("wng", 14))
         } else {
